@@ -1,5 +1,5 @@
 """C26  Generated schemas are well formed and match the entity model."""
-import ast
+import ast, re
 from ..loader import dotted, walk_no_nested, norm, head, calls_in
 from ..q import nodes_calling
 
@@ -67,6 +67,50 @@ def flags_rule(ctx, prefix='C26-FLAGS', flags=('is_unique', 'is_not_null')):
                '' if ok else 'a column that is not the single-column primary key and has %s set can be rendered without %s: the declared constraint is '
                'missing from the DDL while the model still claims it (the database no longer rejects what the session cannot see)' % (flag, KW[flag]),
                expected='append %s whenever column.%s holds' % (KW[flag], flag)).key += '::' + flag
+
+
+def ddl_rules(ctx, prefix='C26-DDL', which=('unique', 'ondelete', 'every')):
+    """what the model declares reaches the CREATE statements, whatever else holds:
+    unique    Table.get_create_command lists every composite unique index that is not the primary key (scenario: not is_pk, is_unique, more than one column:
+              every condition of the selecting comprehension evaluates to true -- no further condition may drop it);
+    ondelete  ForeignKey._get_create_sql appends ON DELETE whenever the key has an on_delete action (table-level clause or ALTER TABLE alike);
+    every     DBSchema.create_tables examines every object of every table: the loop over the objects to create has no `break`."""
+    from ..typestate import eval_test, scenario_edges
+    repo, cg = ctx.repo, ctx.cg
+    if 'unique' in which:
+        f = repo.fn(DS, 'Table.get_create_command')
+        comps = [c for c in ast.walk(f.node) if isinstance(c, (ast.ListComp, ast.GeneratorExp)) and any('indexes' in norm(gen.iter) for gen in c.generators)]
+        ctx.need(comps, prefix + ': the selection of unique indexes in Table.get_create_command was not found')
+        for c in comps:
+            def atom(text, node):
+                t = text.replace(' ', '')
+                if t.endswith('.is_pk'): return False
+                if t.endswith('.is_unique'): return True
+                if re.fullmatch(r'len\(\w+\.columns\)>1', t) or re.fullmatch(r'len\(\w+\.columns\)>=2', t): return True
+                return None
+            vals = [eval_test(cond, atom) for gen in c.generators for cond in gen.ifs]
+            ok = all(v is True for v in vals)
+            ctx.ob(prefix + '.every-composite-unique-index-is-in-the-create-table', f, c, ok,
+                   '' if ok else 'a composite unique index that is not the primary key can be left out of CREATE TABLE by a further condition (%s): the database no longer rejects '
+                   'duplicates that the session cannot see' % norm(c)[:100], node=c)
+    if 'ondelete' in which:
+        f = repo.fn(DS, 'ForeignKey._get_create_sql'); g = cg.cfg(f)
+        emits = [x for x in g.nodes if x.kind == 'stmt' and x.ast is not None and any(isinstance(k, ast.Constant) and isinstance(k.value, str) and 'ON DELETE' in k.value for k in ast.walk(x.ast))]
+        def atom2(text, node):
+            if text.endswith('.on_delete'): return True
+            return None
+        ok = bool(emits) and g.must_pass_after(g.entry, emits, exits=[g.exit], edge_ok=scenario_edges(g, f.node, atom2, resolve=False))
+        ctx.ob(prefix + '.on-delete-action-is-always-written', f, emits[0].ast if emits else f.node, ok,
+               '' if ok else 'a foreign key with an on_delete action can be rendered without ON DELETE (e.g. table-level composite keys): the database refuses or orphans what the '
+               'model says is cascaded / set to NULL')
+    if 'every' in which:
+        f = repo.fn(DS, 'DBSchema.create_tables')
+        loops = [l for l in walk_no_nested(f.node) if isinstance(l, ast.For) and 'get_objects_to_create' in norm(l.iter)]
+        ctx.need(loops, prefix + ': the loop over get_objects_to_create() in DBSchema.create_tables was not found')
+        for l in loops:
+            brk = [b for b in ast.walk(l) if isinstance(b, ast.Break)]
+            ctx.ob(prefix + '.every-object-of-every-table-is-examined', f, brk[0] if brk else l, not brk,
+                   '' if not brk else 'the loop over the objects to create is left early (break at line %d): indexes / foreign keys after that point are neither checked nor created' % brk[0].lineno, node=l)
 
 
 def run(ctx):
@@ -161,9 +205,12 @@ def run(ctx):
                    '' if ok else 'a single default column name is returned under `%s`, which is not a test of the number of primary-key columns: an entity whose only primary-key '
                    'attribute is a reference to a composite key gets one name for several columns and generate_mapping() fails' % (gtxt or 'no test'), node=r,
                    expected='if len(columns) == 1 with columns = entity._get_pk_columns_()')
+    # ---------------------------------------------------------------- DDLCOMPLETE (rules shared with C14 and C15 through ddl_rules)
+    ddl_rules(ctx, 'C26-DDL')
 
 
 MUTANTS = [
+    dict(id='C26-ddl1', file='pony/orm/dbschema.py', fn='ForeignKey._get_create_sql', old="        if foreign_key.on_delete:", new="        if foreign_key.on_delete and not inside_table:", expect='C26-DDL.on-delete'),
     dict(id='C26-co1', file='pony/orm/dbapiprovider.py', fn='DBAPIProvider.get_default_m2m_column_names', old="        if len(columns) == 1:", new="        if not entity._pk_is_composite_:", expect='C26-COLS'),
     dict(id='C26-n1', file='pony/orm/core.py', fn='Database.generate_mapping', old="table.add_column(column_name, converter.get_sql_type(), converter, not attr.nullable)", new="table.add_column(column_name, converter.get_sql_type(), converter, attr.is_required)", expect='C26-NULLS'),
     dict(id='C26-m1', file='pony/orm/dbapiprovider.py', fn='DBAPIProvider.get_default_fk_name', old='        return provider.normalize_name(fk_name.lower())', new='        return provider.normalize_name(fk_name).lower() + "_fk"', expect='C26-LIMIT.default-name'),
